@@ -254,7 +254,7 @@ class DateTimeParser:
         """Parse the given number of digits."""
         start = self.vidx
         self.vidx += digits
-        return int(self.value[start : self.vidx])
+        return self.parse_int(self.value[start : self.vidx])
 
     def parse_minimum_digits(self, min_digits: int) -> int:
         """Parse until the next character is not a digit."""
@@ -264,7 +264,7 @@ class DateTimeParser:
         while self.has_more() and self.peek().isdigit():
             self.vidx += 1
 
-        return int(self.value[start : self.vidx])
+        return self.parse_int(self.value[start : self.vidx])
 
     def parse_fixed_digits(self, max_digits: int) -> int:
         """Parse a fixed number of digits."""
@@ -274,7 +274,15 @@ class DateTimeParser:
             self.vidx += 1
             max_digits -= 1
 
-        return int(self.value[start : self.vidx].ljust(just, "0"))
+        return self.parse_int(self.value[start : self.vidx].ljust(just, "0"))
+
+    @staticmethod
+    def parse_int(raw: str) -> int:
+        """Convert a run of ascii digits, nothing else int() tolerates."""
+        if not (raw.isascii() and raw.isdigit()):
+            raise ValueError
+
+        return int(raw)
 
     def parse_offset(self) -> int | None:
         """Parse the xml timezone offset as minutes."""
